@@ -513,6 +513,14 @@ func (s *csSuite) opSwap() {
 	if r.Intn(3) == 0 {
 		outStr, outTok = s.addrPick()
 	}
+	if r.Intn(40) == 0 {
+		// a message executed by governance: the gov module account pays, and is (or is not) its own recipient
+		gov := authtypes.NewModuleAddress("gov")
+		inStr, inTok = s.w.AddrForms(gov, r.Intn(2))
+		if r.Intn(3) != 0 {
+			outStr, outTok = inStr, inTok
+		}
+	}
 	tok := s.denom(90)
 	inD, outD := s.std, tok
 	if r.Intn(2) == 0 {
@@ -763,6 +771,11 @@ func runCoinswap(seed uint64, nOps int, outPath string) map[string]int {
 					}
 				}
 			}
+		}
+		// the gov module account holds coins (community spends, deposits): a proposal can make it the payer of a message
+		if err := s.w.App.BankKeeper.SendCoins(s.w.Ctx, s.w.Users[0], authtypes.NewModuleAddress("gov"),
+			sdk.NewCoins(sdk.NewCoin("stake", pow2(200)), sdk.NewCoin("ausdc", pow2(200)), sdk.NewCoin("abtc", pow2(200)), sdk.NewCoin("ibc/ETH", pow2(200)))); err != nil {
+			panic(err)
 		}
 		s.ms = coinswapkeeper.NewMsgServerImpl(s.w.App.CoinswapKeeper)
 		s.std, _ = s.w.App.CoinswapKeeper.GetStandardDenom(s.w.Ctx)
